@@ -14,6 +14,7 @@ structure St where
   nextLink : Nat := 0
   keys : Option Nat := none      -- session keys, tagged with the link they were negotiated on
   traffic : List (Nat × Nat) := []   -- (link, link of the keys) of every encrypted request sent
+  verifies : List Nat := []          -- the link of every pair-verify / pair-resume attempt (successful or not)
   deriving DecidableEq, Repr
 
 inductive Ev
@@ -31,9 +32,11 @@ def step (s : St) : Ev → St
     | some _ => s
     | none => { s with link := some s.nextLink, nextLink := s.nextLink + 1 }
   | .verifyOk => match s.link, s.keys with
-    | some l, none => { s with keys := some l }
+    | some l, none => { s with keys := some l, verifies := s.verifies ++ [l] }
     | _, _ => s                       -- no link, or keys already there: pair-verify is not run
-  | .verifyFail => s
+  | .verifyFail => match s.link, s.keys with
+    | some l, none => { s with verifies := s.verifies ++ [l] }
+    | _, _ => s
   | .request => match s.link, s.keys with
     | some l, some k => { s with traffic := s.traffic ++ [(l, k)] }
     | _, _ => s
@@ -46,5 +49,11 @@ def step (s : St) : Ev → St
   | .lost => { s with link := none, keys := none }
 
 def run (s : St) (evs : List Ev) : St := evs.foldl step s
+
+/-- one public operation of the pairing (`get`, `put`, `list_accessories_and_characteristics` ...) against a peer that
+    either holds the accessory's long-term key or does not: connect if needed, pair-verify if there are no keys, then
+    the encrypted request (which goes out only if there are keys) -/
+def op (s : St) (genuine : Bool) : St :=
+  step (step (step s .connect) (if genuine then .verifyOk else .verifyFail)) .request
 
 end HapVerif.BleSession
